@@ -16,7 +16,7 @@ INTS = [0, 1, -1, 42, -42, 255, 256, -129, 65536, 2**31, -2**31, 2**63 - 1, -2**
 
 
 def build(r, name, generics=None):
-    n = r.choice([1, 2, 3, 4, 5, 7])
+    n = r.choice([1, 2, 3, 4, 5, 7]) if r.random() > 0.01 else 40
     idents = gen.pick_idents(r, n)
     pool = r.sample(KEYS, r.randint(2, 8))
     vs = []
